@@ -6,8 +6,8 @@
   Python netlist (only the fields the comparer can observe are kept; the decoder is in
   `Drivers/Compare.lean`).  `compareWith cfg a b` mirrors `Comparer(a, b).compare()` clause by clause;
   the result is `.ok ()` for a normal return and `.error family` for a raised exception, where
-  `family ∈ {assert, other, key, index}` is the exception class family
-  (AssertionError / AttributeError+StopIteration / KeyError / IndexError), never the message.
+  `family ∈ {assert, other, key, index, type}` is the exception class family
+  (AssertionError / AttributeError+StopIteration / KeyError / IndexError / TypeError), never the message.
 
   `cfg.outerPinFix = true`  is the comparer AS REPAIRED by docs/fixes/compare_outer_pins.diff
   (`compare` below, the function the C20 theorems are about);
@@ -92,7 +92,7 @@ structure CNetlist where
 /-- `.ok ()` = the Python call returned; `.error fam` = it raised an exception of family `fam`. -/
 abbrev Res := Except String Unit
 
-def ok : Res := .ok ()
+abbrev ok : Res := .ok ()
 
 /-- Python `assert b`. -/
 def check (b : Bool) : Res := if b then .ok () else .error "assert"
@@ -259,7 +259,10 @@ def instEquiv (ia ib rda rdb rla rlb dA dB lA lB : Option String) : Res :=
            | some ta, some tb => check (ta == tb)
            | _, _ => .error "index"
          else check (ia == ib)
-     else check (ia == ib)) ;;
+     else
+       match ib with
+       | none => .error "type"     -- the assertion message `"..." + orig_name + " " + None` raises TypeError
+       | some _ => check (ia == ib)) ;;
   check (rda == rdb && rla == rlb && dA == dB && lA == lB)
 
 /-- `are_inner_pins_equivalent` -/
